@@ -180,6 +180,12 @@ Definition uses_nillable_in_sequence (u : universe) : bool :=
   existsb (fun km => existsb (fun e => existsb (fun v => v_nillable v && match v_sequence v with Some _ => true | None => false end) (snd e))
                              (m_elements (snd km))) (u_metas u).
 
+(* coverage: an xs:anyType element field or a wildcard field that carries a sequence number *)
+Definition uses_generic_in_sequence (u : universe) : bool :=
+  existsb (fun km => existsb (fun e => existsb (fun v => is_object v && match v_sequence v with Some _ => true | None => false end) (snd e))
+                             (m_elements (snd km))
+                     || existsb (fun v => match v_sequence v with Some _ => true | None => false end) (m_wildcards (snd km))) (u_metas u).
+
 (* coverage: a nillable element field *)
 Definition uses_nillable (u : universe) : bool :=
   existsb (fun km => existsb (fun e => existsb v_nillable (snd e)) (m_elements (snd km))) (u_metas u).
